@@ -50,8 +50,9 @@ def run(ctx):
                 "slice b of the nb-bunch result of the implementation vs the implementation's single-bunch run on that slice "
                 "(bit-exact) and vs the model. Non-trivial: bunch b>=1 with non-zero data and a non-zero offset field.")
     ctx.rule += (" fp cases: nb 2..3, both stencils, four variants, 1..3 applications: slice b vs the single-bunch run "
-                 "(bit-exact on the implementation), tables equal, and vs the model. Non-trivial: b>=1, non-zero data, variant != none.")
-    coq = vp_coq.full_check("C08", ctx, fams=("kick", "fp"))
+                 "(bit-exact on the implementation), tables equal, and vs the model. Non-trivial: b>=1, non-zero data, variant != none."
+                 " rf cases: RF (linear, sinusoidal) and drift offset vectors of nb 2..3 maps block by block, multi-bunch RF+drift iteration vs the single-bunch run of every slice (bit-exact).")
+    coq = vp_coq.full_check("C08", ctx, fams=("kick", "fp", "rf"))
     nk = 60 if ctx.quick() else 1500
     cases = kc.gen_cases(ctx, nk, nbs=(2, 3), sizes=list(range(4, 25)))
     singles = []
@@ -79,9 +80,12 @@ def run(ctx):
             ctx.case_done((c.cid, b), b >= 1 and nz and not undefined)
     ctx.sample(cases[0].describe())
     run_fp(ctx, dis)
+    # RF kick and drift constructors: every bunch's block of the offset vector, multi-bunch iteration vs single-bunch
+    import rf_cases
+    dis += rf_cases.c08_rf_subcheck(ctx)
     ctx.extra["correspondence_disagreements"] = len(dis)
-    ctx.assumptions += ["kick maps (KickMap::apply both directions) and the Fokker-Planck map; the RF/drift constructors' per-bunch offset blocks "
-                        "and the driver-level induction over steps are handled by other checks/stages"]
+    ctx.assumptions += ["kick maps (KickMap::apply both directions), the Fokker-Planck map and the RF/drift constructors' per-bunch offset blocks; "
+                        "the induction over steps of a whole run is C12/C14's driver model; program-level two-bunch runs are in the thorough tier of C03"]
     conclude(ctx, coq, dis)
 
 
